@@ -132,6 +132,19 @@ func msApplyImpl(ms memstore.MemStoreI, keys []string, op msOp) error {
 	panic("bad op")
 }
 
+// msApplyShared is msApplyImpl with caller-owned value slices that are shared between calls: one backing array per
+// value identity for the whole program, as a caller does that stores one slice under several keys.
+func msApplyShared(ms memstore.MemStoreI, keys []string, op msOp, shared [][]byte) error {
+	if (op.Op == "Add" || op.Op == "Upsert") && op.V >= 0 {
+		kb := keyBytes(keys, op.K)
+		if op.Op == "Add" {
+			return ms.Add(kb, shared[op.V])
+		}
+		return ms.Upsert(kb, shared[op.V])
+	}
+	return msApplyImpl(ms, keys, op)
+}
+
 func (m msModel) canon() string {
 	var ks []string
 	for k := range m {
@@ -227,7 +240,7 @@ func msObserve(ms memstore.MemStoreI, m msModel, keys []string, r *core.Result) 
 func (c c14) Run(ctx *core.Ctx) error {
 	keys := []string{"", "a", "b"}
 	alpha := c14Alphabet(len(keys), len(c14Vals))
-	ctx.Ev.Rule = "explicit-state BFS to closure over {Add,Upsert,Delete,DeleteIfExists,Tombstone} x keys {nil,\"\",a,b} x values {nil,\"\",x,yy}; a state = canonical reference map (key -> absent|tombstone|value), successors computed by replaying the shortest path on a fresh memstore; every observer is compared in every state; then both flush variants from every reachable state; second pass: every 3-op program over 12 keys; third pass: every program of 4 operations over 2-3 keys x all values (no state merging: rejected calls and no-op calls are inside the programs). non-trivial = every state except the empty one"
+	ctx.Ev.Rule = "explicit-state BFS to closure over {Add,Upsert,Delete,DeleteIfExists,Tombstone} x keys {nil,\"\",a,b} x values {nil,\"\",x,yy}; a state = canonical reference map (key -> absent|tombstone|value), successors computed by replaying the shortest path on a fresh memstore; every observer is compared in every state; then both flush variants from every reachable state; second pass: every 3-op program over 12 keys; third pass: every program of 4 operations over 2-3 keys x all values (no state merging: rejected calls and no-op calls are inside the programs), each program run a second time with one caller-owned value slice per value identity shared by all its calls (the slices must stay unchanged and every key must read its own value). non-trivial = every state except the empty one"
 	ctx.Ev.Bounds["keys"] = append([]string{"<nil>"}, keys...)
 	ctx.Ev.Bounds["values"] = []string{"<nil>", "", "x", "yy"}
 	seen := map[string][]msOp{"": {}}
@@ -455,6 +468,27 @@ func (c c14) Case(w *core.WCtx, payload json.RawMessage) core.Result {
 				}
 				if nv == 1 {
 					r.Keys = append(r.Keys, core.HashKey("big", m.canon()))
+				} else {
+					// the same program again with one value slice per value identity shared by all calls: no call
+					// may write through a slice it was given earlier, and every key still reads its own value
+					shared := make([][]byte, len(c14Vals))
+					for i, v := range c14Vals {
+						shared[i] = append(make([]byte, 0, 8), v...)
+					}
+					ms2 := memstore.NewMemStore()
+					for _, op := range path {
+						msApplyShared(ms2, cs.Keys, op, shared)
+						r.Trans++
+					}
+					r.Traces++
+					for i, v := range c14Vals {
+						if !bytes.Equal(shared[i], v) {
+							r.Viol = append(r.Viol, core.Violation{Desc: fmt.Sprintf("after %v with caller-shared value slices: the caller's slice for value %q now reads %q", path, v, shared[i])})
+						}
+					}
+					for _, b := range msObserve(ms2, m, cs.Keys, &r) {
+						r.Viol = append(r.Viol, core.Violation{Desc: fmt.Sprintf("after %v with caller-shared value slices: %s", path, b)})
+					}
 				}
 				return len(r.Viol) <= 5
 			}
